@@ -16,6 +16,7 @@ import Emg3dVerif.Drv.C17
 import Emg3dVerif.Drv.C18
 import Emg3dVerif.Drv.C19
 import Emg3dVerif.Drv.C20
+import Emg3dVerif.Drv.C07
 open Emg
 
 def handle (ws : List String) : String :=
@@ -41,6 +42,7 @@ def handle (ws : List String) : String :=
       else if w.startsWith "cli" then Drv18.handle ws
       else if w == "imat" || w == "merge" || w == "lslots" then Drv19.handle ws
       else if w == "fou" then Drv20.handle ws
+      else if w == "tovol" || w == "collect" || w == "stack" then Drv07.handle ws
       else none
     r.getD "bad-op"
 
